@@ -114,6 +114,9 @@ def msgStep (S : Schema) : List String → Schema × String
   | "enc" :: mi :: ts => match mi.toNat?, pMsg ts with
     | some mi, some (m, []) => (S, if badUtf8Msg S mi m then "err utf8" else hexOfBytes (encMsg S mi m))
     | _, _ => (S, "bad-op")
+  | "encraw" :: mi :: ts => match mi.toNat?, pMsg ts with
+    | some mi, some (m, []) => (S, hexOfBytes (encMsg S mi m))
+    | _, _ => (S, "bad-op")
   | "encdet" :: mi :: ts => match mi.toNat?, pMsg ts with
     | some mi, some (m, []) => (S, if badUtf8Msg S mi m then "err utf8" else hexOfBytes (encodeDet S mi m))
     | _, _ => (S, "bad-op")
